@@ -12,8 +12,12 @@
 //!                                 `merge_snapshots(last_modified_node)`; prints the k input trees and the result
 //!                                 (`ok check=<0/1> | T <tree> | ... | R <tree>`, tag = hash of the node without
 //!                                 name/subtree, content = 48-bit id prefixes).
-//!   C <seed> <variant>            e2e copy between two repositories (different key, compression, pack sizes).
-//!   W <seed> <variant>            e2e rewrite with exclude globs (the `ignore` matcher is an oracle input).
+//!   C <seed> <variant>            e2e copy between two repositories (different key, compression, pack sizes);
+//!                                 variant bit 32: afterwards the destination loses one pack that holds no snapshot root tree
+//!                                 (bit 64: a tree pack) + repair_index, and all snapshots are copied again (partial closure).
+//!   W <seed> <variant>            e2e rewrite with exclude globs (the `ignore` matcher is an oracle input); variant bit 4:
+//!                                 directories of hard links sharing ONE tree blob at several paths + anchored excludes
+//!                                 below one occurrence only.
 //!   R <seed> <variant>            e2e repair_snapshots: undamaged (nothing changes), then one pack removed.
 //! e2e output: `ok key=value ...` (all oracle flags) or `fail what=<text>`.
 use std::collections::{BTreeMap, BTreeSet};
@@ -282,7 +286,8 @@ fn mode_c(seed: u64, variant: u64) -> Result<String> {
     let (sdp, stp) = (sizes[r.below(4) as usize], sizes[r.below(4) as usize]);
     let (ddp, dtp) = if variant & 2 == 2 { (1, 1) } else { (sizes[r.below(4) as usize], sizes[r.below(4) as usize]) };
     let (src, _ks) = init_repo(mem(), None, &cfg(sdp, stp, cs), &repo_opts())?;
-    let (dst, _kd) = init_repo(mem(), None, &cfg(ddp, dtp, cd), &repo_opts())?;
+    let dst_store = mem();
+    let (dst, kd) = init_repo(dst_store.clone(), None, &cfg(ddp, dtp, cd), &repo_opts())?;
     let (src, s1) = backup_dir(src, &d1, "src", None)?;
     // general cross-type collision: a file whose bytes are one of the tree blobs stored by the first backup
     let mut coll_tree = 0;
@@ -364,8 +369,53 @@ fn mode_c(seed: u64, variant: u64) -> Result<String> {
     let dsti = dsti.drop_index().to_indexed_ids()?;
     src.copy(&dsti, [&s2, &s3])?;
     let ix2 = index_set(&dsti)?;
-    for (before, after, which) in [(&ix0, &ix1, vec![0usize, 1]), (&ix1, &ix2, vec![1usize, 2])] {
-        let expected: BTreeSet<(bool, Id)> = reach(&which).difference(before).copied().collect();
+    let mut runs = vec![(ix0.clone(), ix1.clone(), vec![0usize, 1]), (ix1.clone(), ix2.clone(), vec![1usize, 2])];
+    // PARTIAL closure in the destination: it keeps the root trees of the copied snapshots but loses one pack
+    // (data or non-root trees) + repair_index; copying the snapshots again has to bring back what is missing
+    let (mut damaged, mut lost_blobs, mut lost_tree_pack) = (0, 0, 0);
+    let dsti = if variant & 32 == 32 {
+        let roots: BTreeSet<Id> = snaps.iter().map(|s| Id::from(*s.tree)).collect();
+        let all_reach = reach(&[0, 1, 2]);
+        let mut cands: Vec<(Id, bool, usize)> = Vec::new();
+        for f in dsti.stream_files::<IndexFile>()? {
+            let (_, f) = f?;
+            for p in f.packs {
+                let is_tree = p.blob_type() == BlobType::Tree;
+                let ids: Vec<Id> = p.blobs.iter().map(|b| Id::from(*b.id)).collect();
+                if (is_tree && ids.iter().any(|i| roots.contains(i))) || !ids.iter().any(|i| all_reach.contains(&(is_tree, *i))) {
+                    continue;
+                }
+                cands.push((Id::from(*p.id), is_tree, ids.len()));
+            }
+        }
+        cands.sort();
+        let want_tree = variant & 64 == 64;
+        let typed: Vec<_> = cands.iter().filter(|c| c.1 == want_tree).copied().collect();
+        let pool = if typed.is_empty() { cands } else { typed };
+        if pool.is_empty() {
+            dsti
+        } else {
+            let (victim, is_tree, n) = pool[r.below(pool.len() as u64) as usize];
+            dst_store.remove(FileType::Pack, &victim, false)?;
+            damaged = 1;
+            lost_blobs = n;
+            lost_tree_pack = usize::from(is_tree);
+            let d = dsti.drop_index();
+            d.repair_index(&RepairIndexOptions::default(), false)?;
+            drop(d);
+            let d = open_repo(dst_store.clone(), None, &kd, &repo_opts())?;
+            let ix3 = index_set(&d)?;
+            let d = d.to_indexed_ids()?;
+            src.copy(&d, [&s1, &s2, &s3])?;
+            let ix4 = index_set(&d)?;
+            runs.push((ix3, ix4, vec![0usize, 1, 2]));
+            d
+        }
+    } else {
+        dsti
+    };
+    for (before, after, which) in &runs {
+        let expected: BTreeSet<(bool, Id)> = reach(which).difference(before).copied().collect();
         let added: BTreeSet<(bool, Id)> = after.difference(before).copied().collect();
         needed_total += expected.len();
         if expected != added {
@@ -430,7 +480,7 @@ fn mode_c(seed: u64, variant: u64) -> Result<String> {
     }
     let ok = check && ls_equal && dump_equal && found && restore_equal && needed_ok;
     Ok(format!(
-        "{} check={} found={} ls_equal={} dump_equal={} restore_equal={} needed_ok={} needed={needed_total} copies={} present_before={} coll={} coll_tree={} prepop={} files={} detail={}",
+        "{} check={} found={} ls_equal={} dump_equal={} restore_equal={} needed_ok={} needed={needed_total} damaged={damaged} lost_blobs={lost_blobs} lost_tree_pack={lost_tree_pack} copies={} present_before={} coll={} coll_tree={} prepop={} files={} detail={}",
         if ok { "ok" } else { "fail what=copy" },
         u8::from(check), u8::from(found), u8::from(ls_equal), u8::from(dump_equal), u8::from(restore_equal), u8::from(needed_ok), copies, present,
         u8::from(coll), coll_tree, u8::from(prepop), lists.iter().map(Vec::len).sum::<usize>(), if detail.is_empty() { "-".into() } else { detail }
@@ -506,7 +556,31 @@ fn mode_g(seed: u64, k: u64, odd: bool) -> Result<String> {
 fn mode_w(seed: u64, variant: u64) -> Result<String> {
     let mut r = SplitMix(seed);
     let tp = TreeParams { max_entries: 40, max_depth: 4, max_file: 20_000, odd_names: false, symlinks: true, hardlinks: true };
-    let es = gen_tree(&mut r, &tp);
+    let mut es = gen_tree(&mut r, &TreeParams { max_entries: if variant & 4 == 4 { 12 } else { 40 }, ..tp.clone() });
+    // variant bit 4: ONE tree blob referenced from several paths.  Directories that hold hard links to the same
+    // files have identical nodes, hence one tree blob: sa, sb, sc (flat) and sp/sub, sq/sub (nested).
+    let shared = variant & 4 == 4;
+    let mut anchored: Vec<String> = Vec::new();
+    if shared {
+        let t = (1_600_000_000, 0);
+        let names = ["x.txt", "y.txt", "z.bin"];
+        for (i, n) in names.iter().enumerate() {
+            es.push(Entry { path: Path::new("sa").join(n), kind: Kind::File(Content::Random { seed: 77 + i as u64, len: 100 + 3000 * i }), mode: 0o644, mtime: t });
+        }
+        for dir in ["sb", "sc", "sp/sub", "sq/sub"] {
+            for n in names {
+                es.push(Entry { path: Path::new(dir).join(n), kind: Kind::Hardlink(Path::new("sa").join(n)), mode: 0o644, mtime: t });
+            }
+        }
+        // anchored excludes below exactly one (or two) of the occurrences; the walk visits sa < sb < sc < sp < sq
+        let occ = ["sa", "sb", "sc", "sp/sub", "sq/sub"];
+        let k = 1 + r.below(2);
+        for _ in 0..k {
+            let dir = occ[r.below(5) as usize];
+            let n = names[r.below(3) as usize];
+            anchored.push(format!("!/src/{dir}/{n}"));
+        }
+    }
     let td = tempfile::tempdir()?;
     let d = td.path().join("d");
     materialize(&d, &es)?;
@@ -515,9 +589,17 @@ fn mode_w(seed: u64, variant: u64) -> Result<String> {
     let repo = repo.to_indexed()?;
     let before = listing(&repo, &snap)?;
     let before_dumps = dumps(&repo, &before);
+    // how many directories share their tree blob with another directory?
+    let mut by_tree: BTreeMap<String, usize> = BTreeMap::new();
+    for (_, n) in &before {
+        if let (true, Some(t)) = (n.is_dir(), &n.subtree) {
+            *by_tree.entry(t.to_hex().to_string()).or_default() += 1;
+        }
+    }
+    let shared_dirs: usize = by_tree.values().filter(|c| **c > 1).sum();
     // exclude globs: literal paths of existing entries, bare names, name prefixes with a star
-    let mut globs = Vec::new();
-    let ng = if variant & 1 == 1 { 0 } else { 1 + r.below(3) };
+    let mut globs = anchored.clone();
+    let ng = if variant & 1 == 1 { 0 } else if shared { r.below(2) } else { 1 + r.below(3) };
     for _ in 0..ng {
         if before.is_empty() {
             break;
@@ -613,7 +695,7 @@ fn mode_w(seed: u64, variant: u64) -> Result<String> {
         render(&get, &new[0].tree, Style::Real, &mut extra)?;
     }
     Ok(format!(
-        "{} check={} paths_ok={} nodes_ok={} dumps_ok={} entries={} excluded={} new_snapshots={} globs={} detail={}{extra}",
+        "{} check={} paths_ok={} nodes_ok={} dumps_ok={} entries={} excluded={} shared_dirs={shared_dirs} new_snapshots={} globs={} detail={}{extra}",
         if ok { "ok" } else { "fail what=rewrite" },
         u8::from(check), u8::from(paths_ok), u8::from(nodes_ok), u8::from(dumps_ok), before.len(), nexcl, new.len(),
         flat(&globs.join(",")), detail
